@@ -29,7 +29,7 @@ ASSUMPTIONS = [
     "whether a signal block on an array field x covers its unrolled elements x_i is not fixed by the statement: only counted",
 ]
 FLOORS = {
-    "enum_width_non_pow2": 0.03,
+    "enum_width_non_pow2": 0.015,
     "ids_out_of_order": 0.10,
     "nested_array": 0.03,
     "history_ge2": 0.10,
